@@ -43,6 +43,14 @@ theorem fact_run_replays_every_job :
     Facts.C14.runNotifyNowPerJob = 1 ∧
     Facts.C14.runConditions = ["strings.HasSuffix(event.Error, jsonld.ContextURLNotAllowedErr.Error())", "event.Retries < maxRetries"] := by decide
 
+/-- the model's `restart` = Run for every notifier: Network.Start ranges over state.Notifiers() (which returns every
+    registered notifier) and calls Run() exactly once per notifier, under no condition, with no continue/break/early
+    return and without consulting any other notifier method first -/
+theorem fact_start_runs_every_notifier :
+    Facts.C14.startResumeLoopRanges = ["n.state.Notifiers()"] ∧ Facts.C14.startRunCalls = 1 ∧
+    Facts.C14.startRunGuards = [] ∧ Facts.C14.startLoopSkips = 0 ∧ Facts.C14.startLoopOtherNotifierCalls = [] ∧
+    Facts.C14.stateNotifiersConditions = 0 ∧ Facts.C14.stateNotifiersRangeReturns = ["true"] := by decide
+
 theorem fact_failed_events_threshold :
     Facts.C14.failedEventsCondition = ["event.Retries >= retriesFailedThreshold"] := by decide
 
